@@ -70,6 +70,9 @@ pub fn replay(prop: &str, case: &Value, st: &mut Stats) -> bool {
         if prop == "C03" && c03::replay(case, st) {
             return true;
         }
+        if c02::replay_wire(case, st) {
+            return true;
+        }
         for p in ["C01", "C04", "C05", "C06", "C07", "C08", "C09", "C10", "C11", "C12", "C13", "C14", "C15", "C16", "C17", "C18", "C19"] {
             if replay(p, case, st) {
                 return true;
